@@ -59,7 +59,50 @@ func TestC16_MonitorModel(t *testing.T) {
 		keys := [][2]string{{"a", "p"}, {"a", "q"}, {"b", "p"}}
 		var pushed []string // rendering of every event put into the channel, in order
 		var pushedObjs []metav1.Object
+		var lastEv kcache.Event
+		publishRaw := func(why string) bool {
+			// "for all event sequences": the monitor forwards what it receives, whatever a cache would
+			// have made of it - a redelivered event, an Update at an unchanged version carried by another
+			// object, a Create for a key it has seen, a Delete for one it has not
+			var ev kcache.Event
+			switch rapid.IntRange(0, 3).Draw(t, "raw") {
+			case 0:
+				if lastEv == nil {
+					return false
+				}
+				ev = lastEv
+			case 1, 2:
+				p.mu.Lock()
+				var cur metav1.Object
+				for _, k := range keys {
+					if o, ok := p.state[k[0]+"/"+k[1]]; ok {
+						cur = o
+						break
+					}
+				}
+				p.mu.Unlock()
+				if cur == nil {
+					return false
+				}
+				cp := deepCopyObj(cur)
+				ev = kcache.NewEvent(kcache.EventTypeUpdate, cp)
+			case 3:
+				ev = kcache.NewEvent(kcache.EventTypeDelete, mkPod("c", "ghost", "1", nil))
+			}
+			p.mu.Lock()
+			if !p.terminated {
+				p.evch <- ev
+			}
+			p.mu.Unlock()
+			pushed = append(pushed, fmt.Sprintf("%s %s@%s", ev.Type(), objKey(ev.Resource()), ev.Resource().GetResourceVersion()))
+			pushedObjs = append(pushedObjs, ev.Resource())
+			h("%s: raw %s %s", why, ev.Type(), objStr(ev.Resource()))
+			return true
+		}
 		publish := func(why string) {
+			if rapid.IntRange(0, 3).Draw(t, "rawEvent") == 0 && publishRaw(why) {
+				return
+			}
 			k := rapid.SampledFrom(keys).Draw(t, "k")
 			p.mu.Lock()
 			_, exists := p.state[k[0]+"/"+k[1]]
@@ -71,6 +114,7 @@ func TestC16_MonitorModel(t *testing.T) {
 				p.del(k[0], k[1])
 				pushed = append(pushed, "delete "+objKey(o)+"@"+o.GetResourceVersion())
 				pushedObjs = append(pushedObjs, o)
+				lastEv = kcache.NewEvent(kcache.EventTypeDelete, o)
 				h("%s: del %s/%s", why, k[0], k[1])
 				return
 			}
@@ -84,6 +128,7 @@ func TestC16_MonitorModel(t *testing.T) {
 			p.mu.Unlock()
 			pushed = append(pushed, fmt.Sprintf("%s %s/%s@%d", typ, k[0], k[1], rv))
 			pushedObjs = append(pushedObjs, o)
+			lastEv = kcache.NewEvent(kcache.EventType(typ), o)
 			h("%s: put %s/%s -> rv %d", why, k[0], k[1], rv)
 		}
 		for i := 0; i < rapid.IntRange(0, 3).Draw(t, "initial"); i++ {
